@@ -256,6 +256,22 @@ Fixpoint sem_cmd (n : nat) (d : nat) (ex : bool) (saved : option N) (c : cmd) (s
       | None => None
       | Some child => Some (Normal, set_status 0 (set_trace (trace child) s))
       end
+  | CPrefixCall x w nm args =>
+      (* XCU 2.9.1: variable assignments before a command name affect the
+         current environment for a special built-in and only the execution of
+         the command otherwise; XCU 2.8.1: a variable assignment error (the
+         variable is read-only: the value does not matter) makes a
+         non-interactive shell exit *)
+      match expand_word w s with
+      | None => Some (shell_error ErrExpansion 0 ex saved s)
+      | Some fields =>
+          if is_ronly x s then Some (shell_error ErrAssignment 0 ex saved s)
+          else
+            match sem_cmd n d ex saved (CCall plain nm args) (set_var x (hd_error fields) s) with
+            | None => None
+            | Some (c, s1) => Some (c, if is_special nm then s1 else restore_var x s s1)
+            end
+      end
   | CAsync a =>
       (* XCU 2.9.3 asynchronous lists: run in a subshell environment; the exit
          status of the list itself is zero; -e does not apply to it *)
@@ -493,6 +509,14 @@ Fixpoint wf_cmd (d : nat) (infun : bool) (c : cmd) {struct c} : bool :=
   | CAssign _ _ | CReadonly _ => true
   | CAssignSub _ body | CSubstArg body => negb (clist_is_empty body) && wf_list 0 infun body
   | CAsync a => wf_andor 0 infun a
+  | CPrefixCall _ _ nm args =>
+      match nm with
+      | NBreak | NContinue =>
+          if infun then match loop_operand args with Some k => Nat.leb k d | None => true end
+          else true
+      | NReturn => infun
+      | _ => true
+      end
   | CCall dc nm args =>
       match nm with
       | NBreak | NContinue =>
